@@ -14,7 +14,7 @@ from ..core.explorer import Ctx, explore
 
 PROPERTY = "C11"
 LEVEL = "fault_enumeration"
-RULE = ("histories H1 (serial sweep of 3 designs), H2 (NSGA-II N=2, G=2: evaluate-time sync, per-generation re-sync, final sync_all), H4 (serial sweep in which one design fails transiently twice and is re-sampled), H5 (serial sweep in which the second design's synchronisation meets seven 'database is locked' answers of another writer before it gets through), H6 (two designs under the gradient evaluator: rows that refer to finite-difference children by id, written before those children), H7 (1100 individuals written by one sync_all, changed, written again: death at every event that is not an upsert and at every 97th upsert), H8 (an NSGA-II run followed by a sweep on the same store: individuals of two classes), H3 "
+RULE = ("histories H1 (serial sweep of 3 designs), H2 (NSGA-II N=2, G=2: evaluate-time sync, per-generation re-sync, final sync_all), H4 (serial sweep in which one design fails transiently twice and is re-sampled), H5 (serial sweep in which the second design's synchronisation meets seven 'database is locked' answers of another writer before it gets through), H6 (two designs under the gradient evaluator: rows that refer to finite-difference children by id, written before those children), H7 (1100 individuals written by one sync_all, changed, written again: death at every event that is not an upsert and at every 97th upsert), H8 (an NSGA-II run followed by a sweep on the same store: individuals of two classes), H7r (the same as H7 with 500 individuals in rewrite mode), H10 (a design left 'in progress' by a foreign exception and written by a later sweep), H11 (a stored design moved by the user and evaluated again), H9 / H9d (the sweep of H1 on a file name under which an earlier run, killed inside a cache-spilling transaction, left its database file and hot journal: rewrite mode / the user deleted the database file only), H3 "
         "(sweep of 2 designs on 2 workers, every schedule with <=1 (thorough 2) pre-emptions): the writer process is killed (os._exit, no "
         "clean-up) at EVERY event index (objective entry/exit, before/after each connect / execute / commit); additionally SIGKILL "
         "immediately before EVERY file-mutating system call (pwrite64, unlink, ftruncate, fsync, ...) of H1 (thorough: H1, H2, H4 and H5), which reaches death inside a commit. After each death the "
@@ -22,6 +22,9 @@ RULE = ("histories H1 (serial sweep of 3 designs), H2 (NSGA-II N=2, G=2: evaluat
         "every row is complete JSON whose costs are [] or exactly f(vector) with matching signed costs. Crashes before the store's creation "
         "has committed are counted as pre_creation and not judged. Non-trivial = crash point after creation; distinct = distinct "
         "(history, schedule, crash index).")
+RULE += (" After each death of H1, H4, H7, H7r, H10, H11 the files are recovered in three ways, each on its own copy: a read-mode view at once; the same view two days later "
+         "by the clock; the run resumed first (store opened again in write mode) and then the view. The second pass of H7 / H7r attaches kilobytes of data to every design so that the one "
+         "transaction exceeds SQLite's page cache (pages reach the file before the commit). The objective attaches data derived from the vector to every design; an acknowledged design keeps it.")
 ASSUMPTIONS = ["process death only (page cache survives): power loss is outside the statement, so synchronous=0 is acceptable",
                "acknowledgement = sync_individual / sync_all has returned to its caller (logged with one write() per id)",
                "the objective is deterministic and known to the oracle"]
@@ -61,6 +64,8 @@ def run_history(name, db, ack_fd, on_point, ctx=None, seed=0):
             on_point("obj:enter")
 
     def after(problem, individual):
+        # post-processing data computed by the objective for THIS vector (field values, derived quantities)
+        individual.custom["squares"] = [float(x) * float(x) for x in individual.vector]
         s = holder.get("sched_holder", {}).get("sched") if holder.get("sched_holder") else None
         if s is not None:
             s.point("obj:exit")
@@ -89,7 +94,7 @@ def run_history(name, db, ack_fd, on_point, ctx=None, seed=0):
 
         def line(tag, individual):
             tok = tokens.setdefault(id(individual), (len(tokens), individual))[0]     # keeps the object alive: ids of objects stay unique
-            return "%s %d %d %s\n" % (tag, tok, individual.id, json.dumps([float(x) for x in individual.vector]))
+            return "%s %d %d %s\n" % (tag, tok, individual.id, json.dumps([[float(x) for x in individual.vector], bool(individual.custom.get("squares"))]))
 
         def si(individual, *a, **kw):       # the store's retry calls itself through this attribute, possibly with arguments
             synced["n"] += 1
@@ -108,27 +113,74 @@ def run_history(name, db, ack_fd, on_point, ctx=None, seed=0):
         store.sync_individual, store.sync_all = si, sa
         problem.data_store = store
         os.write(ack_fd, b"C\n")            # the store has been created (constructor returned)
-    if name in ("H1", "H2", "H4", "H5", "H6", "H7", "H8"):
+    if name in ("H1", "H2", "H4", "H5", "H6", "H7", "H7r", "H8", "H9", "H9d", "H10", "H11"):
         hooks = Hooks(None, on_point=on_point, zero_timeout=False)
         if name == "H5":
             hooks.ctx, hooks.extlock_max = forced, 7
         with sql_proxy(hooks):
-            attach(SqliteDataStore(problem, database_name=db))
+            if name == "H7r":
+                open(db, "w").close()
+                attach(SqliteDataStore(problem, database_name=db, mode="rewrite"))
+            elif name == "H9":
+                attach(SqliteDataStore(problem, database_name=db, mode="rewrite"))
+            else:
+                attach(SqliteDataStore(problem, database_name=db))
             if hasattr(on_point, "mark"):
                 on_point.mark("created")
-            if name == "H7":
-                # a store with more than a thousand individuals: all synchronised by one sync_all, changed in memory,
-                # synchronised again -- a crash during the second pass must not lose what the first one had written
-                for k in range(1100):
+            if name == "H10":
+                # a design whose objective raises something that is no transient failure (the caller catches it) stays
+                # 'in progress'; a later sweep on the same problem writes it with sync_all. It is a recorded individual.
+                from artap.algorithm_sweep import SweepAlgorithm
+                from artap.operators import CustomGenerator
+                problem.h_before_extra = True
+                gen = CustomGenerator(problem.parameters)
+                gen.init([[0.25, -1.0], [0.5, 0.0], [0.75, 1.5]])
+                bad = {"armed": True}
+                inner_f = problem.h_f
+
+                def f_raising(v):
+                    if bad["armed"] and v == [0.5, 0.0]:
+                        raise ZeroDivisionError("division by zero in the objective")
+                    return inner_f(v)
+                problem.h_f = f_raising
+                try:
+                    SweepAlgorithm(problem, generator=gen).run()
+                except ZeroDivisionError:
+                    pass
+                bad["armed"] = False
+                gen2 = CustomGenerator(problem.parameters)
+                gen2.init([[0.1, 0.1], [0.9, -0.9]])
+                SweepAlgorithm(problem, generator=gen2).run()
+            elif name == "H11":
+                # a stored design is moved by the user and submitted again (state reset): until the new evaluation has been
+                # synchronised the store keeps the last consistent record of it
+                from artap.algorithm import DummyAlgorithm
+                batch = [Individual([0.25, -1.0]), Individual([0.5, 0.0]), Individual([0.75, 1.5])]
+                for ind in batch:
+                    problem.individuals.append(ind)
+                alg = DummyAlgorithm(problem)
+                alg.evaluate(batch)
+                moved = batch[1]
+                moved.vector = [0.4, 0.6]
+                moved.state = Individual.State.EMPTY
+                alg.evaluate([moved])
+                problem.data_store.sync_all()
+            elif name in ("H7", "H7r"):
+                # a store with more than a thousand individuals: all synchronised by one sync_all, then every design gets
+                # several kilobytes of post-processing data and everything is synchronised again in ONE transaction that is
+                # larger than SQLite's page cache (pages reach the file before the commit; only the journal can undo them)
+                for k in range(1100 if name == "H7" else 500):
                     v = [k / 1100.0, -2.0 + 4.0 * ((k * 7) % 1100) / 1100.0]
                     ind = Individual(v)
                     ind.costs = f(v)
                     ind.costs_signed = expected_signed(ind.costs) + [True]
                     ind.state = Individual.State.EVALUATED
                     problem.individuals.append(ind)
+                    ind.custom["squares"] = [x * x for x in v]
                 problem.data_store.sync_all()
-                for ind in problem.individuals:
+                for j, ind in enumerate(problem.individuals):
                     ind.population_id = 3
+                    ind.custom["field"] = [round(0.001 * j + 0.5 * i, 6) for i in range(400 if name == "H7" else 900)]
                 problem.data_store.sync_all()
             elif name == "H8":
                 # two studies on one store in one process: an NSGA-II run, then a sweep (different individual classes)
@@ -159,7 +211,7 @@ def run_history(name, db, ack_fd, on_point, ctx=None, seed=0):
                         if child not in problem.individuals:
                             problem.individuals.append(child)
                 problem.data_store.sync_all()
-            elif name in ("H1", "H4", "H5"):
+            elif name in ("H1", "H4", "H5", "H9", "H9d"):
                 if name == "H4":
                     sh = shim_mod.install()
                     sh.reset(77 + seed, None)
@@ -193,7 +245,54 @@ def run_history(name, db, ack_fd, on_point, ctx=None, seed=0):
     return problem
 
 
-def inspect(db, ack_path, created, desc):
+RECOVERIES = ("view", "view-days-later", "resumed")
+
+
+def inspect(db, ack_path, created, desc, variants=("view",)):
+    """What the survivor does with the files the dead process left (each on its own copy of those files):
+    view            - open a read-mode view at once;
+    view-days-later - the same, but two days later by the clock (file times set back);
+    resumed         - the run is resumed first (the store is opened again in write mode, which loads it), then the view."""
+    import shutil
+    import time
+    out, cls = [], None
+    side = [ext for ext in ("", "-journal", "-wal", "-shm") if os.path.exists(db + ext)]
+    for variant in variants:
+        if variant == "view" and len(variants) == 1:
+            v, c = inspect_one(db, ack_path, created, desc)
+        else:
+            work = db + "." + variant.replace("-", "")
+            for ext in ("", "-journal", "-wal", "-shm"):
+                if os.path.exists(work + ext):
+                    os.remove(work + ext)
+            for ext in side:
+                shutil.copy2(db + ext, work + ext)
+            if variant == "view-days-later":
+                old = time.time() - 2 * 86400
+                for ext in side:
+                    os.utime(work + ext, (old, old))
+            elif variant == "resumed" and os.path.exists(work) and os.path.getsize(work) > 0:
+                from artap.datastore import SqliteDataStore
+                from ..core.common import muted
+                from .c_support import make_problem
+                try:
+                    with muted():
+                        st = SqliteDataStore(make_problem(n_params=2, bounds=[[0.0, 1.0], [-2.0, 2.0]], criteria=["minimize", "maximize"], f=f), database_name=work)
+                        st.destroy()
+                        del st
+                except Exception:
+                    pass          # whatever the resumed run does, the files are judged by the view below
+            v, c = inspect_one(work, ack_path, created, desc + " [recovery: %s]" % variant)
+            v = [(k + ":" + variant if variant != "view" else k, m) for k, m in v]
+            for ext in ("", "-journal", "-wal", "-shm"):
+                if os.path.exists(work + ext):
+                    os.remove(work + ext)
+        out += v
+        cls = cls or c
+    return out, cls
+
+
+def inspect_one(db, ack_path, created, desc):
     """The recovery oracle, run by the surviving parent."""
     from artap.problem import ProblemViewDataStore
     import atexit
@@ -208,13 +307,14 @@ def inspect(db, ack_path, created, desc):
                 created = True
             elif parts[0] in ("A", "B") and len(parts) == 4:
                 try:
-                    tok, iid, vec = int(parts[1]), int(parts[2]), json.loads(parts[3])
-                except ValueError:
+                    tok, iid, (vec, has_custom) = int(parts[1]), int(parts[2]), json.loads(parts[3])
+                except (ValueError, TypeError):
                     continue                       # a line cut short by the kill
-                o = objs.setdefault(tok, {"id": iid, "acked": None, "begun": []})
+                o = objs.setdefault(tok, {"id": iid, "acked": None, "begun": [], "custom": False})
                 o["id"] = iid
                 if parts[0] == "A":
                     o["acked"] = vec
+                    o["custom"] = has_custom
                     acks.append(iid)
                 else:
                     o["begun"].append(vec)
@@ -223,8 +323,10 @@ def inspect(db, ack_path, created, desc):
             out.append(("C11:file-missing", desc))
         return out, "pre_creation"
     view_ok = True
+    view_ids = None
     try:
         view = ProblemViewDataStore(database_name=db)
+        view_ids = set(i.id for i in view.individuals)
         atexit.unregister(view.cleanup)
         try:
             os.rmdir(view.working_dir)
@@ -257,6 +359,11 @@ def inspect(db, ack_path, created, desc):
     finally:
         con.close()
     ids = [r[0] for r in rows]
+    if view_ids is not None:
+        for a in sorted(set(acks)):
+            if a in ids and a not in view_ids:
+                out.append(("C11:acknowledged-individual-not-in-the-view", "the row of id %d exists but the read-mode view does not hand the individual out (view ids %r); %s" % (a, sorted(view_ids)[:12], desc)))
+                break
     for a in set(acks):
         if a not in ids:
             out.append(("C11:acknowledged-row-missing", "synchronisation of id %d had returned but the row is absent (rows %r); %s" % (a, sorted(ids), desc)))
@@ -265,10 +372,11 @@ def inspect(db, ack_path, created, desc):
         out.append(("C11:duplicate-rows", "ids %r; %s" % (ids, desc)))
     # individual by individual (not id by id): the row of an acknowledged individual holds THAT individual -- its last
     # acknowledged design, or one whose synchronisation had begun afterwards
-    byid = {}
+    byid, custom_of = {}, {}
     for rid, js in rows:
         try:
             byid[rid] = json.loads(js)["vector"]
+            custom_of[rid] = (json.loads(js).get("custom") or {}).get("squares")
         except Exception:
             pass
     for tok, o in sorted(objs.items()):
@@ -277,6 +385,10 @@ def inspect(db, ack_path, created, desc):
         if byid[o["id"]] != o["acked"] and byid[o["id"]] not in o["begun"]:
             out.append(("C11:acknowledged-individual-replaced-by-another", "an individual with id %d and design %r had been synchronised; the row with that id holds the design %r; %s" % (
                 o["id"], o["acked"], byid[o["id"]], desc)))
+            break
+        if o["custom"] and byid[o["id"]] == o["acked"] and custom_of.get(o["id"]) != [float(x) * float(x) for x in o["acked"]]:
+            out.append(("C11:acknowledged-custom-data-lost", "an individual (id %d, design %r) had been synchronised together with the data its objective attached; the row now carries %r; %s" % (
+                o["id"], o["acked"], custom_of.get(o["id"]), desc)))
             break
     for rid, js in rows:
         try:
@@ -290,6 +402,9 @@ def inspect(db, ack_path, created, desc):
                 out.append(("C11:torn-row:signed-without-costs", "row %r; %s" % (rid, desc)))
             continue
         exp = f(vec)
+        sq = (d.get("custom") or {}).get("squares")
+        if costs == exp and sq is not None and sq != [float(x) * float(x) for x in vec]:
+            out.append(("C11:torn-row:custom-data-missing-or-of-another-vector", "row %r vector %r carries custom data %r; %s" % (rid, vec, d.get("custom"), desc)))
         if costs != exp:
             out.append(("C11:torn-row:costs-do-not-match-vector", "row %r vector %r costs %r, f(vector) = %r; %s" % (rid, vec, costs, exp, desc)))
         elif [float(x) for x in signed[:-1]] != expected_signed(costs) or len(signed) != 3:
@@ -307,44 +422,106 @@ def paths(tag):
     return db, ack
 
 
+_STALE = {}
+
+
+def stale_leftovers():
+    """The files an EARLIER run left under some name when it was killed inside a large transaction (database file with pages of
+    the unfinished transaction plus its hot rollback journal). Produced once per process by really killing such a run."""
+    if "dir" not in _STALE:
+        import shutil
+        d = tempfile.mkdtemp(prefix="c11-stale-")
+        db = os.path.join(d, "old.sqlite")
+
+        def child():
+            fd = os.open(db + ".ack", os.O_WRONLY | os.O_CREAT | os.O_APPEND, 0o600)
+            seen = {"n": 0}
+
+            def on_point(label):
+                if label == "db:execute-insert:after":
+                    seen["n"] += 1
+                    if seen["n"] == 500 + 430:          # well inside the second, cache-spilling transaction
+                        os._exit(137)
+            run_history("H7r", db, fd, on_point, Ctx([]), 0)
+        code = crash.fork_run(child)
+        if code != 137 or not os.path.exists(db + "-journal"):
+            raise HarnessError("could not produce the leftovers of a killed run (status %r, journal present: %r)" % (code, os.path.exists(db + "-journal")))
+        _STALE["dir"], _STALE["db"] = d, db
+    return _STALE["db"]
+
+
+def place_leftovers(name, db):
+    """H9 / H9d: the new run uses a file name under which an earlier, killed run left its files."""
+    import shutil
+    if name not in ("H9", "H9d"):
+        return
+    old = stale_leftovers()
+    shutil.copy2(old + "-journal", db + "-journal")
+    if name == "H9":
+        shutil.copy2(old, db)            # rewrite mode will remove the database file itself; H9d: the user deleted it by hand
+
+
 def event_level(name, col, choices=None, seed=0, part=None):
     """All crash indices of one history (and, for H3, one schedule)."""
     import artap.algorithm_sweep, artap.algorithm_NSGAII  # noqa: F401,E401
     # crash-free run in a child to count events and find the creation mark
     db, ack = paths(name)
+    place_leftovers(name, db)
     info_path = db + ".info"
 
     def free_child():
         fd = os.open(ack, os.O_WRONLY | os.O_CREAT | os.O_APPEND, 0o600)
         ec = crash.EventCounter(None, record=True)
-        run_history(name, db, fd, ec, Ctx(choices or []), seed)
+        err = None
+        try:
+            run_history(name, db, fd, ec, Ctx(choices or []), seed)
+        except HarnessError:
+            raise
+        except Exception as e:          # artap itself fails on what it finds (a store it cannot use): reported, not a harness error
+            err = "%s: %s" % (type(e).__name__, e)
         with open(info_path, "w") as fh:
-            json.dump({"n": ec.n, "created": ec.marks.get("created", 0), "labels": ec.labels}, fh)
+            json.dump({"n": ec.n, "created": ec.marks.get("created", 0), "labels": ec.labels, "error": err}, fh)
     code = crash.fork_run(free_child)
     if code != 0 or not os.path.exists(info_path):
         raise HarnessError("crash-free run of %s failed with status %r" % (name, code))
     info = json.load(open(info_path))
     os.remove(info_path)
-    viol, cls = inspect(db, ack, True, "%s crash-free run" % name)
+    if info.get("error"):
+        col.case()
+        col.violation("C11:run-fails:%s" % info["error"].split(":")[0], "event", "%s without any crash: the run itself fails with %s after %d events" % (name, info["error"], info["n"]),
+                      {"history": name, "k": None, "choices": choices, "seed": seed})
+        return info["n"]
+    variants = RECOVERIES if name in ("H1", "H4", "H7", "H7r", "H10", "H11") else ("view",)
+    viol, cls = inspect(db, ack, True, "%s crash-free run" % name, variants)
     for key, msg in viol:
         col.violation(key, "event", msg, {"history": name, "k": None, "choices": choices, "seed": seed})
     col.case()
     total, created = info["n"], info["created"]
     for k in range(1, total + 1):
-        if name == "H7" and info["labels"][k - 1].startswith("db:execute-insert") and k % 97 != 0 and k < total - 6:
+        if name in ("H7", "H7r") and info["labels"][k - 1].startswith("db:execute-insert") and k % 97 != 0 and k < total - 6:
             continue       # H7: every event that is not one of the 2 x 1100 x 2 upsert events, and every 97th of those
         if part is not None and k % part[1] != part[0]:
             continue
         db, ack = paths(name)
+        place_leftovers(name, db)
 
         def child(k=k):
             fd = os.open(ack, os.O_WRONLY | os.O_CREAT | os.O_APPEND, 0o600)
-            run_history(name, db, fd, crash.EventCounter(k), Ctx(choices or []), seed)
+            try:
+                run_history(name, db, fd, crash.EventCounter(k), Ctx(choices or []), seed)
+            except HarnessError:
+                raise
+            except Exception:
+                os._exit(98)            # the run fails by itself before the crash point is reached
         code = crash.fork_run(child)
+        if code == 98:
+            col.case()
+            col.violation("C11:run-fails-before-crash-point", "event", "%s: the run fails by itself before event %d" % (name, k), {"history": name, "k": k, "choices": choices, "seed": seed})
+            break
         if code != 137:
             raise HarnessError("%s crash index %d: child ended with status %r instead of dying at the event" % (name, k, code))
         desc = "%s killed at event %d/%d (%s)%s" % (name, k, total, info["labels"][k - 1], " schedule %r" % (choices,) if choices else "")
-        viol, cls = inspect(db, ack, k > created, desc)
+        viol, cls = inspect(db, ack, k > created, desc, variants)
         col.case()
         col.count("crash_points")
         col.count("class_" + cls)
@@ -442,7 +619,7 @@ def replay(sub, case):
 
 def run(tier, seed):
     import artap.algorithm_sweep, artap.algorithm_NSGAII, artap.datastore  # noqa: F401,E401
-    shards = [("event", "H1", seed), ("event", "H2", seed), ("event", "H4", seed), ("event", "H5", seed), ("event", "H6", seed), ("event", "H8", seed)] + [("event", "H7", seed, (i, 4)) for i in range(4)]
+    shards = [("event", "H1", seed), ("event", "H2", seed), ("event", "H4", seed), ("event", "H5", seed), ("event", "H6", seed), ("event", "H8", seed), ("event", "H10", seed), ("event", "H11", seed), ("event", "H9", seed), ("event", "H9d", seed)] + [("event", "H7", seed, (i, 6)) for i in range(6)] + [("event", "H7r", seed, (i, 3)) for i in range(3)]
     scheds = h3_schedules(2 if tier == "thorough" else 1)
     shards += [("h3", tuple(s), seed) for s in scheds]
     extra = {"h3_schedules": len(scheds)}
